@@ -163,4 +163,140 @@ class C15a2(Obligation):
             ctx.check(ctx.And(out.exc is None, out.value == 'DEFAULT'), 'refused => the default value')
 
 
-OBLIGATIONS = [C15a, C15a2]
+from jedi.inference import syntax_tree as jst  # noqa: E402
+from jedi.inference.base_value import NO_VALUES  # noqa: E402
+from jedi.inference.value.klass import ClassMixin  # noqa: E402
+
+
+class C15a3(Obligation):
+    id = 'C15.a3'
+    title = 'budgets are per Script: every new detector starts from zero with its own tables'
+    pattern = 'P2 (initial state established by the real __init__)'
+    assumptions = ('two detectors are built by the real constructor',)
+
+    def scenario(self, ctx, cfg):
+        ctx.int('unused')
+        a = ExecutionRecursionDetector(None)
+        b = ExecutionRecursionDetector(None)
+        # use `a` for one execution
+        a._pysym_holder = True
+        ex = Execution(7, ModuleCtx(False, 'other'), None)
+        ctx.run(a.push_execution, ex)
+        ctx.check(b._recursion_level == 0 and b._execution_count == 0 and len(b._parent_execution_funcs) == 0
+                  and len(b._funcdef_execution_counts) == 0, 'a fresh detector is empty whatever other detectors did')
+        ctx.check(a._funcdef_execution_counts is not b._funcdef_execution_counts
+                  and a._parent_execution_funcs is not b._parent_execution_funcs, 'tables are not shared')
+        ctx.check(a._recursion_level == 1 and a._execution_count == 1 and a._funcdef_execution_counts.get(7) == 1,
+                  'the used detector charged the execution to itself')
+
+
+class C15e(Obligation):
+    id = 'C15.e'
+    title = 'per-node inference cap: the wrapped inference runs iff the incremented count is within the cap'
+    pattern = 'P2 inductive step over an arbitrary counter'
+    assumptions = ('the count of the node is an arbitrary integer >= 0 or absent; the wrapped function is a stub',)
+
+    def configs(self, tier):
+        return [dict(present=p) for p in (True, False)]
+
+    def scenario(self, ctx, cfg):
+        node = Obj(tag='node')
+        builtins_module = Obj(tag='builtins')
+        counts = {}
+        c0 = 0
+        if cfg['present']:
+            c0 = ctx.int('count', 0)
+            counts[node] = c0
+        is_builtins = ctx.flag('is_builtins_module_context')
+        state = Obj(inferred_element_counts=counts, builtins_module=builtins_module)
+        context = Obj(tree_node=node, inference_state=state, parent_context=None,
+                      get_value=lambda: builtins_module if is_builtins else Obj())
+        calls = []
+
+        def infer(context, *args):
+            calls.append(1)
+            return 'VALUES'
+        wrapper = jst._limit_value_infers(infer)
+        ctx.force(wrapper)
+        out = ctx.call(wrapper, context)
+        ctx.check(out.exc is None, 'never raises')
+        if out.exc is not None:
+            return
+        cap = 300 * 100 if is_builtins else 300
+        ctx.check(counts[node] == c0 + 1, 'the count grows by exactly one per request')
+        ran = len(calls) == 1
+        ctx.check(ctx.iff(ran, c0 + 1 <= cap), 'the inference runs iff the incremented count is within the cap')
+        if ran:
+            ctx.check(out.value == 'VALUES', 'result of the wrapped inference')
+        else:
+            ctx.check(out.value is NO_VALUES, 'over the cap: no values, no work')
+
+
+class Lazy:
+    def __init__(self, classes):
+        self._classes = classes
+
+    def infer(self):
+        return list(self._classes)
+
+
+RAW_MRO = ClassMixin.py__mro__.__wrapped__
+
+
+class Klass:
+    """class stand-in; its MRO is computed by the real (unmemoised) ClassMixin.py__mro__"""
+    _pysym_holder = True
+
+    def __init__(self, tag):
+        self.tag = tag
+        self.bases = []
+
+    def py__bases__(self):
+        return [Lazy([b]) for b in self.bases]
+
+    def py__mro__(self):
+        return RAW_MRO(self)
+
+
+class C15f(Obligation):
+    id = 'C15.f'
+    title = 'class MRO listing: terminates, lists the class first, every ancestor exactly once'
+    pattern = 'P1 over all acyclic inheritance graphs of <=4 classes (edges symbolic)'
+    assumptions = (
+        'inheritance graphs are acyclic here (cycles are cut by the generator memo, obligation of the memo itself); '
+        'each base expression infers to one class; N<=4 classes, any subset of the forward edges',
+    )
+
+    def configs(self, tier):
+        return [dict(N=n) for n in ((2, 3, 4) if tier == 'quick' else (2, 3, 4, 5))]
+
+    def scenario(self, ctx, cfg):
+        N = cfg['N']
+        ks = [Klass('K%d' % i) for i in range(N)]
+        edge = {}
+        for i in range(N):
+            for j in range(i + 1, N):
+                edge[(i, j)] = ctx.flag('K%d_inherits_K%d' % (i, j))
+                if edge[(i, j)]:
+                    ks[i].bases.append(ks[j])
+        ctx.int('unused')
+        ctx.force(RAW_MRO)
+        out = ctx.call(lambda: list(ks[0].py__mro__()))
+        ctx.check(out.exc is None, 'never raises')
+        if out.exc is not None:
+            return
+        mro = out.value
+        reach = set([0])
+        changed = True
+        while changed:
+            changed = False
+            for (i, j), e in edge.items():
+                if e and i in reach and j not in reach:
+                    reach.add(j)
+                    changed = True
+        ctx.check(mro[0] is ks[0], 'the class itself comes first')
+        ctx.check(len(mro) == len(set(id(k) for k in mro)), 'no class twice')
+        ctx.check(set(k.tag for k in mro) == set('K%d' % i for i in reach), 'exactly the class and all its ancestors')
+
+
+OBLIGATIONS = [C15a, C15a2, C15a3, C15e, C15f]
